@@ -23,7 +23,10 @@ IRFLAGS = ["-std=c++17", "-O1", "-fno-pic", "-fno-access-control", "-fno-vectori
            "-fsanitize-trap=all", "-I" + STUBS, "-I" + SRC, "-I" + HARNESS, "-S", "-emit-llvm", "-w"]
 NATFLAGS = ["-std=c++17", "-O1", "-g", "-fno-access-control", "-fsanitize=address,undefined",
             "-fno-sanitize=nonnull-attribute,vptr,alignment", "-fno-sanitize-recover=all", "-fno-omit-frame-pointer",
-            "-I" + SRC, "-I" + HARNESS, "-w"]
+            "-I" + SRC, "-I" + HARNESS, "-w",
+            # abs(INT_MIN) is undefined but no clang-14 sanitizer reports it: route the builtin through a checking function (engine/vf_abs.h)
+            "-fno-builtin-abs", "-fno-builtin-labs", "-fno-builtin-llabs",
+            "-include", os.path.join(ENGINE, "vf_abs.h"), "-D__builtin_abs=vf_checked_abs", "-D__builtin_labs=vf_checked_labs", "-D__builtin_llabs=vf_checked_llabs"]
 # message formatting is cut (returns ""), std::string::_M_replace is wrapped by the runtime (see DESIGN 1.2/1.3)
 IR2C_BASE = ["--emptystr", "_ZNSt7__cxx119to_string", "--emptystr", "_ZStpl", "--emptystr", "_ZN10OP2Utility13StringUtility10StringFrom", "--keep-in", "_ZN10OP2Utility5XFile13PathsAreEqual",
              "--rename", "_ZNSt7__cxx1112basic_stringIcSt11char_traitsIcESaIcEE10_M_replaceEmmPKcm=__vf_real_M_replace"]
